@@ -190,3 +190,28 @@ Proof.
 Qed.
 Theorem dec_correct n : 0 <= n < 10 ^ 40 -> undigits 0 (dec n) = n.
 Proof. intros H. unfold dec. apply digits_correct; [exact H|lia]. Qed.
+
+(* str(scheduler) of both front ends: the instance of [table_structure] with the heading of Scheduler.__headings *)
+Theorem sched_str_structure : forall mx tz pname jobs,
+  (exists rows,
+    sched_str_thr mx tz pname jobs =
+      heading_thr mx tz pname ++ dec (Z.of_nat (length jobs)) ++ [NL; NL] ++
+      fmt_row (cols_of true (is_some tz)) (pick_of (is_some tz) names_thr) ++
+      fmt_row (cols_of true (is_some tz)) (pick_of (is_some tz) (map (fun c : col => dashes (snd c)) COLS_THR)) ++
+      concat_str (map (fun v => fmt_row (cols_of true (is_some tz)) (pick_of (is_some tz) (row_cells true v))) rows) /\
+    Permutation jobs rows /\ length rows = length jobs /\
+    StronglySorted (fun a b => v_due a <= v_due b) rows) /\
+  (exists rows,
+    sched_str_aio tz jobs =
+      heading_aio tz ++ dec (Z.of_nat (length jobs)) ++ [NL; NL] ++
+      fmt_row (cols_of false (is_some tz)) (pick_of (is_some tz) names_aio) ++
+      fmt_row (cols_of false (is_some tz)) (pick_of (is_some tz) (map (fun c : col => dashes (snd c)) COLS_AIO)) ++
+      concat_str (map (fun v => fmt_row (cols_of false (is_some tz)) (pick_of (is_some tz) (row_cells false v))) rows) /\
+    Permutation jobs rows /\ length rows = length jobs /\
+    StronglySorted (fun a b => v_due a <= v_due b) rows).
+Proof.
+  intros mx tz pname jobs. split.
+  - exact (table_structure true (is_some tz) (heading_thr mx tz pname) jobs).
+  - exact (table_structure false (is_some tz) (heading_aio tz) jobs).
+Qed.
+
